@@ -3,9 +3,9 @@ from __future__ import annotations
 
 
 def all_translators():
-    from . import option_tr, key_tr, sort_tr, compare_tr, clean_tr
+    from . import option_tr, key_tr, sort_tr, compare_tr, clean_tr, dispatch_tr
     return [("GenOptions.v", option_tr), ("GenKey.v", key_tr), ("GenSort.v", sort_tr), ("GenCompare.v", compare_tr),
-            ("GenClean.v", clean_tr)]
+            ("GenClean.v", clean_tr), ("GenDispatch.v", dispatch_tr)]
 
 
 def generate_all(repo, coq_dir, fallback=False):
